@@ -676,6 +676,186 @@ def self_check(buckets, classes, pols, o, who, groups, label, gov, own_op, r, ne
     return allowed
 
 
+# ====================================================================== part N: non-interference
+# "An operation ... reveals anything about a managed object only if the object's operation policy
+# grants that operation": two stores that differ only in objects the requester may not touch
+# (their names, groups, lengths, masks, states) answer every request of that requester alike.
+NI_POLICIES = ["default", "public", "open"]
+NI_NAMES = ["guess-a", "guess-b", "plain", "x"]
+NI_GROUPS = ["ga", "gb"]
+
+
+def _ni_policies():
+    p = H.builtin_policies()
+    p["open"] = {"preset": {H.OT[t]: {o: enums.Policy.ALLOW_ALL for o in enums.Operation}
+                            for t in H.OBJECT_TYPES}}
+    return p
+
+
+def _ni_hidden(o, who):
+    """May `who` do nothing at all to object o (neither locate it nor read it)?"""
+    if o["pol"] == "open":
+        return False
+    if o["pol"] == "public":
+        return True
+    return o["owner"] != who
+
+
+@st.composite
+def gen_ni(draw):
+    who = draw(st.sampled_from(["bob", "carol"]))
+    objs = []
+    for _ in range(draw(st.integers(2, 6))):
+        o = {"owner": draw(st.sampled_from(["alice", "alice", who, "bob"])),
+             "pol": draw(st.sampled_from(["default", "default", "default", "public", "open"])),
+             "t": draw(st.sampled_from(["SymmetricKey", "SymmetricKey", "SecretData"]))}
+        var = lambda: {"name": draw(st.sampled_from(NI_NAMES)), "group": draw(st.sampled_from(NI_GROUPS)),
+                       "bits": draw(st.sampled_from([128, 256])), "mask": draw(st.sampled_from([12, 4, 0x80 | 12])),
+                       "active": draw(st.booleans())}
+        o["a"] = var()
+        o["b"] = var() if _ni_hidden(o, who) else o["a"]
+        objs.append(o)
+    vals = [["Name", n] for n in NI_NAMES] + [["Object Group", g] for g in NI_GROUPS] \
+        + [["Cryptographic Length", 128], ["Cryptographic Length", 256], ["Cryptographic Usage Mask", 4],
+           ["Cryptographic Usage Mask", 0x80], ["State", "ACTIVE"], ["State", "PRE_ACTIVE"],
+           ["Object Type", "SymmetricKey"], ["Object Type", "SecretData"],
+           ["Cryptographic Algorithm", "AES"], ["Operation Policy Name", "default"]] \
+        + [["Unique Identifier", "$%d" % k] for k in range(len(objs))]
+    reqs = []
+    for _ in range(draw(st.integers(3, 8))):
+        if draw(st.integers(0, 3)) > 0:
+            f = draw(st.lists(st.sampled_from(vals), min_size=0, max_size=3))
+            # date filters last / first / in between: 0-4 of them (three are one too many)
+            nd = draw(st.sampled_from([0, 0, 1, 2, 3, 3, 3, 4]))
+            dates = [["Initial Date", draw(st.sampled_from(["$t", "$t-", "$t+"]))] for _ in range(nd)]
+            pos = draw(st.sampled_from(["after", "after", "before", "mixed"]))
+            f = f + dates if pos == "after" else dates + f if pos == "before" else draw(st.permutations(f + dates))
+            reqs.append({"op": "Locate", "f": [list(x) for x in f], "v": draw(st.sampled_from([[1, 2], [1, 4], [2, 0]]))})
+        else:
+            reqs.append({"op": draw(st.sampled_from(["Get", "GetAttributes", "GetAttributeList", "Activate", "Revoke",
+                                                     "Destroy", "Encrypt", "MAC", "DeriveKey", "Get-wrapped-with",
+                                                     "ModifyAttribute", "DeleteAttribute"])),
+                         "k": draw(st.integers(0, len(objs) - 1)), "k2": draw(st.integers(0, len(objs) - 1))})
+    return {"ni": True, "who": who, "objs": objs, "reqs": reqs}
+
+
+def _ni_build(spec, side):
+    H.CLOCK.now = 1_660_000_000
+    srv = H.Server(policies=_ni_policies())
+    uids = []
+    for k, o in enumerate(spec["objs"]):
+        v = o[side]
+        bits = v["bits"] if o["t"] == "SymmetricKey" else None
+        it = F.register_item(o["t"], mask=v["mask"], label="ni%d" % k, bits=bits,
+                             extra_attrs=[["Name", v["name"]], ["Object Group", v["group"]],
+                                          ["Operation Policy Name", o["pol"]]])
+        H.CLOCK.tick()
+        cli = H.Client(srv, o["owner"], None, (1, 2))
+        r = cli.one(it, tick=False)
+        if r["status"] != "SUCCESS":
+            srv.close()
+            raise core.HarnessError("C03 non-interference store: register failed %r" % (r,))
+        uids.append(r["payload"]["uid"])
+        if v["active"] and o["pol"] != "public":
+            cli.one({"op": "Activate", "uid": uids[-1]}, tick=False)
+    return srv, uids
+
+
+def _ni_item(req, uids, t0):
+    if req["op"] == "Locate":
+        attrs = []
+        for n, val in req["f"]:
+            if n == "Unique Identifier":
+                val = uids[int(val[1:])]
+            elif n == "Initial Date":
+                val = t0 + {"$t": 1, "$t-": 0, "$t+": 3}[val]
+            attrs.append([n, val])
+        return {"op": "Locate", "attrs": attrs}, tuple(req["v"])
+    u, u2 = uids[req["k"]], uids[req["k2"]]
+    blk = "00112233445566778899aabbccddeeff"
+    op = req["op"]
+    if op in ("Get", "GetAttributes", "GetAttributeList", "Activate", "Destroy"):
+        return {"op": op, "uid": u}, (1, 2)
+    if op == "Revoke":
+        return {"op": "Revoke", "uid": u, "code": "KEY_COMPROMISE"}, (1, 2)
+    if op == "Encrypt":
+        return {"op": "Encrypt", "uid": u, "params": {"alg": "AES", "mode": "CBC", "pad": "PKCS5"}, "data": blk, "iv": blk}, (1, 2)
+    if op == "MAC":
+        return {"op": "MAC", "uid": u, "params": {"alg": "HMAC_SHA256"}, "data": blk}, (1, 2)
+    if op == "DeriveKey":
+        return {"op": "DeriveKey", "uids": [u2, u] if u2 != u else [u], "method": "HASH",
+                "attrs": [["Cryptographic Length", 128], ["Cryptographic Algorithm", "AES"]],
+                "dp": {"params": {"hash": "SHA_256"}, "data": "01"}}, (1, 2)
+    if op == "Get-wrapped-with":
+        return {"op": "Get", "uid": u2, "wrap": {"eki": {"uid": u, "params": {"mode": "NIST_KEY_WRAP"}},
+                                                 "enc": "NO_ENCODING"}}, (1, 2)
+    if op == "ModifyAttribute":
+        return {"op": "ModifyAttribute", "uid": u, "attr": ["Name", "renamed", 0]}, (1, 2)
+    return {"op": "DeleteAttribute", "uid": u, "name": "Object Group", "index": 0}, (1, 2)
+
+
+def run_ni(spec):
+    who = spec["who"]
+    a, ua = _ni_build(spec, "a")
+    b = None
+    buckets, classes = [], ["non-interference"]
+    nontrivial = False
+    try:
+        b, ub = _ni_build(spec, "b")
+        if ua != ub:
+            raise core.HarnessError("C03 non-interference: the two stores numbered their objects differently")
+        t0 = 1_660_000_000
+        hidden = [k for k, o in enumerate(spec["objs"]) if _ni_hidden(o, who) and o["a"] != o["b"]]
+        for req in spec["reqs"]:
+            item, v = _ni_item(req, ua, t0)
+            try:
+                ra = H.Client(a, who, None, v).one(item, tick=False)
+            except Exception:
+                classes.append("ni:request-not-expressible")     # the library cannot encode it
+                continue
+            rb = H.Client(b, who, None, v).one(item, tick=False)
+            key = req["op"]
+            if req["op"] == "Locate":
+                nd = sum(1 for f in req["f"] if f[0] == "Initial Date")
+                classes.append("ni:locate-dates-%d" % min(nd, 4))
+            elif req["k"] in hidden or (req["op"] in ("DeriveKey", "Get-wrapped-with") and req["k2"] in hidden):
+                classes.append("ni:op-on-hidden-object")
+            if hidden:
+                nontrivial = True
+            pa = {x: ra.get(x) for x in ("status", "reason", "message", "payload")}
+            pb = {x: rb.get(x) for x in ("status", "reason", "message", "payload")}
+            for p in (pa, pb):      # values the server draws at random
+                pl = p.get("payload")
+                if isinstance(pl, dict):
+                    for x in ("iv", "data", "mac"):
+                        if req["op"] in ("Encrypt",) and pl.get(x) is not None and x == "iv":
+                            pl[x] = "<random>"
+            if pa != pb:
+                buckets.append(("C03|answer-depends-on-objects-the-requester-may-not-touch|" + key,
+                                "%s as %s: %r\n store A: %r\n store B: %r\n objects (A/B differ only where hidden): %r"
+                                % (item, who, req, pa, pb, spec["objs"])))
+    finally:
+        a.close()
+        if b is not None:
+            b.close()
+    seen = {}
+    for k, d in buckets:
+        seen.setdefault(k, d)
+    return list(seen.items()), nontrivial, classes
+
+
+def ni_worker(n, seed):
+    col = core.Collector(PID)
+
+    def one(spec):
+        b, nt, cl = run_ni(spec)
+        col.record(spec, nontrivial=nt, classes=sorted(set(cl)), buckets=b)
+
+    core.draw_examples(gen_ni(), n, seed, one)
+    return col
+
+
+
 def history_worker(n, seed):
     col = core.Collector(PID)
 
@@ -688,6 +868,8 @@ def history_worker(n, seed):
 
 
 def replay(spec):
+    if spec.get("ni"):
+        return run_ni(spec)[0]
     if "steps" in spec:
         return run_history(spec)[0]
     if "locate-as" in spec:
@@ -729,6 +911,9 @@ def run(ctx):
     nh = ctx.n(800, 8000)
     dicts += core.run_sharded("vlib.props.c03", "history_worker",
                               [(nh // n, core.derive_seed(ctx.seed, "c03", i)) for i in range(n)])
+    nn = ctx.n(640, 8000)
+    dicts += core.run_sharded("vlib.props.c03", "ni_worker",
+                              [(nn // n, core.derive_seed(ctx.seed, "c03ni", i)) for i in range(n)])
     col = core.merged(PID, dicts)
     col.extra["exhaustive"] = False
     col.extra["table_exhaustive_over"] = ("policy shapes x requester x group info x operations x "
